@@ -229,6 +229,10 @@ pub fn name_ok(s: &str) -> bool {
     !s.is_empty() && s.split('/').all(|c| component(c.as_bytes()))
 }
 
+thread_local! {
+    static PATHBUF: std::cell::RefCell<String> = std::cell::RefCell::new(String::with_capacity(1 << 16));
+}
+
 #[derive(Default)]
 pub struct Exec {
     expect: Option<String>,
@@ -531,8 +535,20 @@ impl Exec {
                     table.push(format!("{}={}", hex(name.as_bytes()), vs.join(",")));
                 }
                 let full = format!("search {r} {p} {}", if table.is_empty() { ".".to_owned() } else { table.join(";") });
+                // every search of this thread reads its path from ONE buffer that never moves (capacity reserved up front):
+                // consecutive searches see the same addresses with other contents — what a server does with a reused request
+                // buffer, and what a memo keyed by address or offset gets wrong
                 let res = catch_unwind(AssertUnwindSafe(|| {
-                    x.router.search(&ps).map(|m| {
+                    PATHBUF.with(|b| {
+                    let mut b = b.borrow_mut();
+                    if ps.len() <= b.capacity() {
+                        b.clear();
+                        b.push_str(&ps);
+                    } else {
+                        *b = ps.clone();
+                    }
+                    let ps: &str = b.as_str();
+                    x.router.search(ps).map(|m| {
                         let mut l = format!(
                             "match {} {} {}",
                             hex(m.template.as_bytes()),
@@ -543,6 +559,7 @@ impl Exec {
                             let _ = write!(l, " {}={}", hex(k.as_bytes()), hex(v.as_bytes()));
                         }
                         l
+                    })
                     })
                 }));
                 let out = match res {
